@@ -212,7 +212,13 @@ func atomize(s string) (atoms []cluster, ok bool) {
 // threading (idx+n, newState) and restarting inside a word (idx+k, -1).  An answer that
 // does not fall on atom boundaries, or whose word / trailing space ctx.Characters
 // measures differently from the atoms, is recorded with length -1.
-func oracleTable(s string, cs []cluster) (string, int, []int) {
+type plainAnswer struct {
+	n  int
+	br bool
+	st int
+}
+
+func oracleTable(s string, cs []cluster) (tbl string, nmiss int, offsets []int, answers map[plainKey]plainAnswer) {
 	offs := make([]int, len(cs)+1)
 	at := map[int]int{}
 	for i, c := range cs {
@@ -223,6 +229,7 @@ func oracleTable(s string, cs []cluster) (string, int, []int) {
 	seen := map[plainKey]bool{}
 	queue := []plainKey{{0, -1}}
 	var entries []string
+	answers = map[plainKey]plainAnswer{}
 	misses := 0
 	for len(queue) > 0 {
 		k := queue[0]
@@ -271,6 +278,7 @@ func oracleTable(s string, cs []cluster) (string, int, []int) {
 		}
 		entries = append(entries, hx.Tuple(hx.Tuple(hx.Z(int64(k.idx)), hx.Z(int64(k.st))),
 			hx.Tuple(hx.Z(int64(n)), hx.Bool(br), hx.Z(int64(st)))))
+		answers[k] = plainAnswer{n, br, st}
 		if n > 0 {
 			queue = append(queue, plainKey{k.idx + n, st})
 			for j := 0; j <= wend-k.idx; j++ {
@@ -278,7 +286,41 @@ func oracleTable(s string, cs []cluster) (string, int, []int) {
 			}
 		}
 	}
-	return hx.List(entries), misses, offs
+	return hx.List(entries), misses, offs, answers
+}
+
+// oracleConsistent reports whether every answer in the table ends at the next break
+// opportunity met when FirstLineSegment is threaded from the start of the text, and reports
+// mustBreak exactly there (the hypothesis orc_consistent of the no_needless_split /
+// hard_break theorems; restarting with state -1 inside a word can forget context).
+func oracleConsistent(n int, answers map[plainKey]plainAnswer) bool {
+	isBreak := map[int]bool{}
+	isHard := map[int]bool{}
+	k := plainKey{0, -1}
+	for k.idx < n {
+		a, ok := answers[k]
+		if !ok || a.n <= 0 {
+			return false
+		}
+		isBreak[k.idx+a.n] = true
+		isHard[k.idx+a.n] = a.br
+		k = plainKey{k.idx + a.n, a.st}
+	}
+	for q, a := range answers {
+		if a.n <= 0 {
+			return false
+		}
+		end := q.idx + a.n
+		if !isBreak[end] || a.br != isHard[end] {
+			return false
+		}
+		for p := q.idx + 1; p < end; p++ {
+			if isBreak[p] {
+				return false
+			}
+		}
+	}
+	return true
 }
 
 type obsLine struct {
@@ -321,6 +363,8 @@ func plainObserve(s string, w uint16, cs []cluster, offs []int) (term string, li
 	return hx.List(items), lines, code, false
 }
 
+var plainCases, plainConsistent int
+
 type plainJSON struct {
 	Text   string      `json:"text"`
 	Widths []int       `json:"widths"`
@@ -335,7 +379,11 @@ func addPlain(st *hx.Stream, s string, widths []uint16, skipped *int, tags ...st
 		*skipped++
 		return
 	}
-	tbl, misses, offs := oracleTable(s, cs)
+	tbl, misses, offs, answers := oracleTable(s, cs)
+	plainCases++
+	if oracleConsistent(len(cs), answers) {
+		plainConsistent++
+	}
 	if whole, _ := segment(s); len(whole) != len(cs) {
 		tags = append(tags, "segment-ends-inside-grapheme")
 	}
@@ -477,6 +525,76 @@ func addHard(st *hx.Stream, parts []string, tags ...string) {
 		map[string]interface{}{"segments": parts, "lines": strs}, len(lines) > 1, tags...)
 }
 
+// ---------------------------------------------------------------- Draw
+
+func rawClusters(chars []vaxis.Character, style int) []cluster {
+	cs := make([]cluster, len(chars))
+	for i, ch := range chars {
+		cs[i] = cluster{ch.Grapheme, ch.Width, style}
+	}
+	return cs
+}
+
+func linesTerm(lines [][]cluster) string {
+	ls := make([]string, len(lines))
+	for i, l := range lines {
+		ls[i] = cellsTerm(l)
+	}
+	return hx.List(ls)
+}
+
+func surfaceTerm(sf vxfw.Surface) (string, map[string]interface{}) {
+	rows := []string{}
+	for r := 0; r < int(sf.Size.Height); r++ {
+		row := ""
+		for c := 0; c < int(sf.Size.Width); c++ {
+			g := sf.Buffer[r*int(sf.Size.Width)+c].Grapheme
+			if g == "" {
+				g = "·"
+			}
+			row += g
+		}
+		rows = append(rows, row)
+	}
+	return hx.Tuple(hx.ZU(uint64(sf.Size.Width)), hx.ZU(uint64(sf.Size.Height)), cellsTerm(toClusters(sf.Buffer))),
+		map[string]interface{}{"width": sf.Size.Width, "height": sf.Size.Height, "rows": rows}
+}
+
+func addDraw(st *hx.Stream, parts []string, rich bool, style int, maxW, maxH uint16, tags ...string) {
+	dctx := vxfw.DrawContext{Max: vxfw.Size{Width: maxW, Height: maxH}, Characters: vaxis.Characters}
+	var lines [][]cluster
+	var sf vxfw.Surface
+	panicked, msg := hx.Catch(func() {
+		if rich {
+			rt := richtext.New(richSegments(parts))
+			sc := richtext.NewSoftwrapScanner(rt.VerifCells(dctx), maxW)
+			for i := 0; i < 100000 && sc.Scan(); i++ {
+				lines = append(lines, toClusters(sc.Text()))
+			}
+			sf, _ = rt.Draw(dctx)
+		} else {
+			s := strings.Join(parts, "")
+			sc := text.NewSoftwrapScanner(s, maxW)
+			for i := 0; i < 100000 && sc.Scan(dctx); i++ {
+				lines = append(lines, rawClusters(vaxis.Characters(sc.Text()), 0))
+			}
+			t := text.New(s)
+			t.Style = styleOf(style)
+			sf, _ = t.Draw(dctx)
+		}
+	})
+	obs, js := surfaceTerm(sf)
+	if panicked {
+		obs = hx.Tuple("(-1)", "(-1)", "[]")
+		js = map[string]interface{}{"panic": msg}
+	}
+	js["segments"] = parts
+	js["rich"] = rich
+	js["max"] = []int{int(maxW), int(maxH)}
+	st.Add(hx.Tuple(hx.Bool(rich), hx.Z(int64(style)), hx.ZU(uint64(maxW)), hx.ZU(uint64(maxH)), linesTerm(lines), obs),
+		js, len(lines) > 1 && int(maxH) >= 2, tags...)
+}
+
 // ---------------------------------------------------------------- generators
 
 var smallAlphabet = []string{"a", "b", " ", "-", "\n", "中", "́"}
@@ -580,15 +698,16 @@ func main() {
 	plain := hx.NewStream("plain", "model.Softwrap", "plain_case", "c16_plain_mismatches", "c16_plain_violations")
 	rich := hx.NewStream("rich", "model.Softwrap", "rich_case", "c16_rich_mismatches", "c16_rich_violations")
 	hard := hx.NewStream("hard", "model.Softwrap", "hard_case", "c16_hard_mismatches", "c16_hard_violations")
-	plain.ShardMax, rich.ShardMax, hard.ShardMax = 250, 250, 500
+	draw := hx.NewStream("draw", "model.Softwrap", "draw_case", "c16_draw_mismatches", "c16_draw_violations")
+	plain.ShardMax, rich.ShardMax, hard.ShardMax, draw.ShardMax = 250, 250, 500, 300
 	skipped := 0
 
 	smallWidths := []uint16{0, 1, 2, 3, 4, 5, 6}
-	exLen, nRandom, maxAtoms := 4, 700, 60
+	exLen, nRandom, maxAtoms := 4, 500, 60
 	exLenRich := 3
 	if cfg.Thorough() {
-		exLen, nRandom, maxAtoms = 6, 12000, 200
-		exLenRich = 5
+		exLen, nRandom, maxAtoms = 5, 6000, 200
+		exLenRich = 4
 	}
 	// the defects fixed in /repo (kept as regression inputs) and the examples of the test suite
 	for _, s := range []string{"ab。", "中中。", "x ab-cd", "x ab-cd ef", "foo bar", "foo\nbar", "foo         bar",
@@ -596,6 +715,12 @@ func main() {
 		addPlain(plain, s, smallWidths, &skipped, "regression")
 		addRich(rich, []string{s}, smallWidths, "regression")
 		addHard(hard, []string{s}, "regression")
+		for _, w := range []uint16{0, 2, 3, 5} {
+			for _, h := range []uint16{0, 1, 2, 65535} {
+				addDraw(draw, []string{s}, false, 3, w, h, "regression")
+				addDraw(draw, []string{s}, true, 0, w, h, "regression")
+			}
+		}
 	}
 	exhaustive(smallAlphabet, exLen, func(s string) {
 		addPlain(plain, s, smallWidths, &skipped, fmt.Sprintf("exhaustive-len%d", utf8.RuneCountInString(s)))
@@ -621,7 +746,21 @@ func main() {
 		if i%4 == 0 {
 			addHard(hard, splitParts(cfg, s), tag)
 		}
+		if i%2 == 0 {
+			mw, mh := ws[0], uint16(cfg.Rand.Intn(8))
+			if cfg.Rand.Intn(6) == 0 {
+				mh = 65535
+			}
+			addDraw(draw, []string{s}, false, 1+cfg.Rand.Intn(5), mw, mh, tag)
+			addDraw(draw, splitParts(cfg, s), true, 0, mw, mh, tag)
+		}
 	}
+	exhaustive(smallAlphabet, 3, func(s string) {
+		for _, w := range []uint16{1, 2, 3} {
+			addDraw(draw, []string{s}, false, 2, w, uint16(1+len(s)%3), "exhaustive-len3")
+		}
+	})
 	cfg.Write("C16", "texts: regression inputs, all strings over {a,b,space,hyphen,newline,wide CJK,combining acute} up to a fixed length at widths 0..6, random word/space/punctuation/line-break texts (wide, emoji, ZWJ, combining, NBSP, CRLF, tabs) at random widths incl. 0 and 65535; one case = one text at all its widths; non-trivial = some width wraps the text into more than one line",
-		[]*hx.Stream{plain, rich, hard}, map[string]interface{}{"skipped_not_tiled_by_characters": skipped}, nil)
+		[]*hx.Stream{plain, rich, hard, draw}, map[string]interface{}{"skipped_not_tiled_by_characters": skipped,
+			"plain_cases": plainCases, "plain_cases_where_oracle_hypothesis_orc_consistent_holds": plainConsistent}, nil)
 }
